@@ -304,7 +304,7 @@ func runC14(args []string) error {
 		"diff: one case per (generated program, entry function) with its argument tuples, non-trivial when at least one tuple returns a value; "+
 			"frag: one case per MiniGo program with all its runs, non-trivial when the program has a loop, a call or a short-circuit operator and some run returns a value; "+
 			"distinct by Coq term")
-	co.shard = 60
+	co.shard = 24
 	work := filepath.Join(cf.out, "ws")
 	if *probe != "" {
 		return c14Probe(co, work, *probe)
